@@ -39,13 +39,16 @@ class Sched(object):
         self.by_ident = {}
         self.blocked_events = 0
 
+    real_thread_name = None
+
     # ---------------------------------------------------------------- setup
     def spawn(self, fn, name=None):
         t = _T()
         t.tid, t.name, t.fn = len(self.ts), name or "t%d" % len(self.ts), fn
         t.sem = threading.Semaphore(0)
         t.state, t.blocked_on, t.exc, t.result = "runnable", None, None, None
-        t.thread = threading.Thread(target=self._body, args=(t,), daemon=True)
+        # (real_thread_name: when set, every worker thread carries that same Thread.name - names are labels, not identities)
+        t.thread = threading.Thread(target=self._body, args=(t,), daemon=True, **({"name": Sched.real_thread_name} if Sched.real_thread_name else {}))
         self.ts.append(t)
         return t.tid
 
